@@ -37,8 +37,12 @@ def dg(x):
     return hashlib.sha1(json.dumps(x, sort_keys=True, default=str).encode()).hexdigest()[:12]
 
 
-def apply_mode(fk, p, mode):
-    kw = dict(module="verif_sink", attr="injected")
+STDCALLEES = {"operator.itemgetter": ("operator", "itemgetter"), "itertools.chain": ("itertools", "chain"),
+              "collections.OrderedDict": ("collections", "OrderedDict"), "functools.partial": ("functools", "partial")}
+
+
+def apply_mode(fk, p, mode, callee="sink"):
+    kw = dict(module="verif_sink", attr="injected") if callee == "sink" else dict(zip(("module", "attr"), STDCALLEES[callee]))
     if mode == "first_keep":
         p.insert_python("payload", run_first=True, use_output_as_unpickle_result=False, **kw)
     elif mode == "first_replace":
@@ -113,7 +117,7 @@ def run(ctx):
     items, recs = [], []
     for ops, data, prof in bases:
         for mode in MODES:
-            rec = {"id": len(recs), "base": ops, "mode": mode, "prof": prof, "fnk": FNK, "base_hex": data.hex(), "refused": False,
+            rec = {"id": len(recs), "base": ops, "mode": mode, "prof": prof, "fnk": FNK, "callee": "sink", "base_hex": data.hex(), "refused": False,
                    "new": [], "new_hex": "", "sev": -1, "keeps": mode in KEEPS,
                    "added": 0 if mode.startswith("magic") else 1, "inj": dg(["injected", ["tuple", ["str", "'payload'"]], ["dict"]])
                    if not mode.startswith(("fn_", "num_")) else dg(["injected", ["tuple", ["str", "'1e3'"], ["int", "8080"], ["bytes", "b'12'"], ["str", "'payload'"]], ["dict"]])
@@ -139,6 +143,27 @@ def run(ctx):
                 rec["refused"] = True
                 rec["why_refused"] = type(e).__name__
             recs.append(rec)
+    # the callee dimension: the same helpers told to call a harmless standard-library callable that is on no deny list
+    # (judged on the verdict clause only; nothing of these is loaded)
+    std_bases = [b for b in bases if b[2] == "natural" or len(b[0]) <= 6][:: max(1, len(bases) // (25 if ctx.quick else 200))]
+    for ops, data, prof in std_bases:
+        for callee in STDCALLEES:
+            for mode in ("first_keep", "first_replace", "last_keep", "last_replace", "append_nopop", "append_pop"):
+                rec = {"id": len(recs), "base": ops, "mode": mode, "prof": prof, "fnk": FNK, "callee": callee, "base_hex": data.hex(),
+                       "refused": False, "new": [], "new_hex": "", "sev": -1, "keeps": mode in KEEPS, "added": 1, "inj": "",
+                       "base_loads": False, "bcalls": [], "bres": "", "injres": "", "runs": []}
+                try:
+                    p = fk.Pickled.load(data)
+                    apply_mode(fk, p, mode, callee)
+                    nb = p.dumps()
+                    rec["new_hex"] = nb.hex()
+                    try:
+                        rec["sev"] = sevnum(an, check_safety(fk.Pickled.load(nb)).severity)
+                    except Exception:  # noqa: BLE001
+                        rec["sev"] = 9
+                except Exception as e:  # noqa: BLE001
+                    rec["refused"], rec["why_refused"] = True, type(e).__name__
+                recs.append(rec)
     pj, outp = os.path.join(ctx.tmp, "c08_in.json"), os.path.join(ctx.tmp, "c08_out.json")
     json.dump(items, open(pj, "w"))
     env = dict(os.environ, PYTHONPATH=os.pathsep.join([ROOT] + ([os.environ["VERIF_REPO"]] if os.environ.get("VERIF_REPO") else [])))
@@ -164,7 +189,7 @@ def run(ctx):
                 for n in ("c-loads", "c-load-stream", "c-load-peekable", "py"):
                     why = why.replace(" with " + n, "")
                 runner = v[face].rsplit(" with ", 1)[1] if " with " in v[face] else ""
-                failures.append({"sig": f"{rec['mode']}: {why}" + (f" [{runner}]" if runner else "") + (" (framed base)" if any(o['o'] == 'FRAME' for o in rec['base']) else ""),
+                failures.append({"sig": f"{rec['mode']}{'' if rec['callee'] == 'sink' else ' calling ' + rec['callee']}: {why}" + (f" [{runner}]" if runner else "") + (" (framed base)" if any(o['o'] == 'FRAME' for o in rec['base']) else ""),
                                  "detail": f"{face}: {v[face]}; base={' '.join(o['o'] for o in rec['base'][:14])} hex={rec['base_hex'][:60]} exc={[x.get('exc') for x in rec['runs'] if not x['ok']][:1]}",
                                  "n": len(rec["base"]), "replay_obj": {"property": "C08", "record": rec, "verdict": v}})
     failures.sort(key=lambda f: f["n"])
